@@ -59,6 +59,10 @@ pub fn write(
     }
     let per_hour = if wall > 0.0 { (runs as f64 / wall * 3600.0) as u64 } else { 0 };
     let samples = if samples.is_empty() { vec![json!("no run executed")] } else { samples };
+    let selfcheck: serde_json::Value = std::fs::read_to_string(std::path::Path::new(&root).join("selfcheck_result.json"))
+        .ok()
+        .and_then(|s| serde_json::from_str(&s).ok())
+        .unwrap_or(json!("not run"));
     let ev = json!({
         "property_id": prop,
         "tier": tier,
@@ -84,6 +88,7 @@ pub fn write(
             "counters": other,
             "known_finding_hits": st.known_hits,
             "known_finding_lines": known_lines,
+            "determinism_selfcheck": selfcheck,
             "real_vs_stub": {
                 "real": ["pool-manager", "farm-manager", "epoch-manager", "fee-collector", "mantra-dex-std", "cosmwasm-std", "cw-storage-plus", "cw-ownable", "cw-utils"],
                 "stub": ["cw-multi-test router + WasmKeeper", "BankKeeper behind FaultyBank", "StargateMock behind FaultyStargate", "MockApiBech32", "SimStorage (BTreeMap)"],
